@@ -153,7 +153,21 @@ CHECKS = {
               "tolerated unknown events, both engines, are validated against the spec."),
         design_ref="DESIGN.md 5 C14",
         technique="TLA+ spec + TLC MC + TLC trace validation with identity-classified results",
-    ),    "C16": dict(
+    ),    "C15": dict(
+        category="model_checking",
+        engine="tlc-decl",
+        text=("Decl.tla gives the declaration DSL a formal meaning (Normalize: statements -> states, per-state transition sequences with event "
+              "lists/internal flags/guards, event set, incl. the moment from_.any() is expanded); for every abstract machine and every rendering "
+              "(to/from_, multi-target, multi-source, itself, all `|` associations, event= as string/list/Event, attribute/Event()/decorated "
+              "events, any() vs explicit, States.from_enum/States({}) vs attributes, base+subclass) TLC checks Normalize(rendering) = machine; "
+              "each rendering is executed through the real DSL and metaclass, the structure read back from the class must equal Normalize, and "
+              "event histories x guard valuations on every rendering are validated by TLC as behaviours of System.tla instantiated with the one "
+              "abstract machine."),
+        design_ref="DESIGN.md 5 C15",
+        technique="TLA+ semantics of the declaration DSL evaluated by TLC + structure read-back + TLC trace validation against the one abstract machine",
+        note="Trusted base: TLC evaluating Decl.tla and Trace_System; the renderers/interpreter in lib/checks/c15.py (cross-checked by Normalize(rendering) = machine).",
+    ),
+    "C16": dict(
         category="model_checking",
         text=("The spec's class table is immutable and each action changes one instance (PropIsolation); programs interleaving class statements "
               "(independent classes, same class/method names with different async-ness, subclasses), instantiation and events on up to three "
@@ -226,6 +240,8 @@ def main():
              "kind_free_text": "TLA+ definition of class-definition verdicts evaluated by TLC over exhaustively enumerated graphs (Eval_Validate)"},
             {"name": "tlc-diagram", "path": "/verif/spec/Diagram.tla", "serves_properties": ["C18"],
              "kind_free_text": "TLA+ definition of the abstract diagram evaluated by TLC (Eval_Diagram)"},
+            {"name": "tlc-decl", "path": "/verif/spec/Decl.tla", "serves_properties": ["C15"],
+             "kind_free_text": "TLA+ semantics of the declaration DSL (Normalize) evaluated by TLC over renderings (Eval_Decl) plus Trace_System for behaviour"},
             {"name": "tlc-guardexpr", "path": "/verif/spec/GuardExpr.tla", "serves_properties": ["C08"],
              "kind_free_text": "TLA+ transcription of guard expressions (evaluation, rendering, parsing) evaluated by TLC over harness-enumerated cases (Eval_GuardExpr)"},
             {"name": "tlc-dispatch", "path": "/verif/spec/Dispatch.tla",
